@@ -638,6 +638,11 @@ pub fn run(ctx: &mut Ctx) {
         d!(ctx, N, "generate-box", "U=Tr4", |k| gen_box::<N, Tr<0>>(k));
         d!(ctx, N, "generate-box", "U=TrZ", |k| gen_box::<N, TrZ>(k));
         d!(ctx, N, "generate-box", "U=Tr24", |k| gen_box::<N, Tr<5>>(k));
+        d!(ctx, N, "generate-box", "U=Zn", |k| gen_box::<N, Zn>(k));
+        d!(ctx, N, "generate-owned", "U=Zn", |k| gen_owned::<N, Zn>(k));
+        d!(ctx, N, "default-boxed", "U=Zn", |k| default_boxed::<N, Zn>(k));
+        d!(ctx, N, "default-boxed", "U=Nd", |k| default_boxed::<N, Nd>(k));
+        d!(ctx, N, "map-owned", "A=Zn,U=Tr4", |k| map_owned::<N, Zn, Tr<0>>(k));
         d!(ctx, N, "default-owned", "U=Tr4", |k| default_owned::<N, Tr<0>>(k));
         d!(ctx, N, "default-owned", "U=TrZ", |k| default_owned::<N, TrZ>(k));
         d!(ctx, N, "default-boxed", "U=Tr4", |k| default_boxed::<N, Tr<0>>(k));
